@@ -69,7 +69,8 @@ PerrCodes == {"i0", "i1", "im1", "c_m32601", "c_m32050", "c_2001", "ibig"}
 PerrMsgs  == {"s_a", "s_empty", "s_esc"}
 PerrData  == {Absent, "null", "i0", "false", "s_empty", "a_empty", "o_empty", "o_deep"}
 ExcTypes == {"ValueError", "KeyError", "TypeError", "AssertionError", "RuntimeError", "Custom", "LookupError", "StopIteration",
-             "PjrpcDeserializationError", "PjrpcIdentityError", "PjrpcBaseError", "ValidationError"}   \* the library's own non-protocol exceptions
+             "PjrpcDeserializationError", "PjrpcIdentityError", "PjrpcBaseError", "ValidationError",
+             "TimeoutError", "OSError", "ZeroDivisionError", "AsyncioTimeoutError", "UnicodeDecodeError", "JSONDecodeError"}   \* the library's own non-protocol exceptions
 FailForms(m) == {Single(RD("s_v20", "i1", m, Absent)), Single(RD("s_v20", Absent, m, Absent)),
                  Single(RD("s_v20", "s_empty", m, "a_1")),
                  Batch(<<RD("s_v20", "i1", "m_ok", Absent), RD("s_v20", "i0", m, Absent)>>),
@@ -89,7 +90,7 @@ InitC03 ==
     \/ \E kf \in KindFl, mb \in {"unset", "n1"}, t \in C03Texts : InitWith(PCfg(kf, mb), t)
 
 (************************************ C12 **********************************)
-MwKinds == {"pass", "short", "rewriteReq", "rewriteResp"}
+MwKinds == {"pass", "short", "shortall", "rewriteReq", "rewriteResp"}   \* shortall answers notifications too
 Eh(g, by) == [gen |-> g, by |-> [c \in EhKeys |-> IF c \in DOMAIN by THEN by[c] ELSE <<>>]]
 EhTables == {NoEh,
              Eh(<<"identity">>, <<>>), Eh(<<"replace">>, <<>>), Eh(<<"identity", "replace">>, <<>>),
